@@ -126,6 +126,11 @@ package traversal
 //@   requires n != nil && fn != nil
 //@   before fn assert[C15] prog.Budget != nil ==> old(prog.Budget.NodeBudget) > 0 && prog.Budget.NodeBudget == old(prog.Budget.NodeBudget) - 1
 //@   before WalkLocal assert[C14] len(carg0.Path.segments) == len(prog.Path.segments) + 1
+//   every child gets a path of its own: the segment array handed down was made for this child (a
+//   path kept by the callback is not rewritten when a later sibling is visited), and it is the
+//   parent's path followed by the child's segment
+//@   before WalkLocal assert[C14] iterfresh(carg0.Path.segments)
+//@   before WalkLocal assert[C14] forall i mathint :: 0 <= i && i < len(prog.Path.segments) ==> carg0.Path.segments[i] == prog.Path.segments[i]
 //@   ensures[C15] prog.Budget != nil && old(prog.Budget.NodeBudget) <= 0 ==> iserr(err, "*ErrBudgetExceeded")
 //@   loop 0 assigns foreign, itr.pos
 //@   loop 0 invariant itr != nil
